@@ -99,7 +99,14 @@ def goldenClass : Val :=
         .num 3073,
         .num 3074],
       .node 15 [.num 3329],
-      .node 16 [.num 3585]],
+      .node 16 [.num 3585],
+      -- two-slot entries (JVMS indices 44-45 and 46-47), last so that no index used above moves
+      .node 7 [
+        .num 251724291,
+        .num 251921670],
+      .node 8 [
+        .num 268501507,
+        .num 268698886]],
     .num 33025,
     .num 33026,
     .num 33027,
